@@ -120,6 +120,7 @@ func genFuncFamily(a progArgs, emit func(func() *progCase)) {
 // ---------------------------------------------------------------- recursion
 
 func genRecurFamily(a progArgs, emit func(func() *progCase)) {
+	genRecurMultiArg(a, emit)
 	n := loc("n")
 	le0 := bin("<=", n, lit(0))
 	dec := bin("-", n, lit(1))
@@ -215,6 +216,125 @@ func genRecurFamily(a progArgs, emit func(func() *progCase)) {
 						return &progCase{family: "recur", size: ti, top: append(append([]stmt{}, t.defs...), sEnd{body}), opts: runOpts{q: true}}
 					}
 					return &progCase{family: "recur", size: ti, top: append(append([]stmt{}, body...), t.defs...), opts: runOpts{q: true}}
+				})
+			}
+		}
+	}
+}
+
+// genRecurMultiArg: calls with two or more arguments where the same callsite is re-entered by
+// recursion while a later argument of the outer call is still being evaluated (per-call argument
+// binding: every activation must keep its own already-evaluated arguments).
+func genRecurMultiArg(a progArgs, emit func(func() *progCase)) {
+	n, m := loc("n"), loc("m")
+	acc, sv := loc("acc"), loc("s")
+	ret := func(x expr) stmt { return sReturn{x} }
+	ifz := func(c expr, then ...stmt) stmt { return sIf{conds: []expr{c}, blocks: [][]stmt{then}} }
+	sub1 := func(x expr) expr { return bin("-", x, lit(1)) }
+	le0 := func(x expr) expr { return bin("<=", x, lit(0)) }
+	dot := func(xs ...expr) expr {
+		e := xs[0]
+		for _, x := range xs[1:] {
+			e = bin(".", e, x)
+		}
+		return e
+	}
+	type tmpl struct {
+		name string
+		defs []stmt
+		body func(args []expr) []stmt
+		args [][]expr
+	}
+	prF := func(fn string) func(args []expr) []stmt {
+		return func(args []expr) []stmt {
+			return []stmt{asg(loc("n"), lit(100)), asg(loc("m"), lit(200)), asg(loc("z"), eCall{fn, args}), pr(lit("result"), loc("z")), pr(lit("caller"), loc("n"), loc("m"))}
+		}
+	}
+	var ackArgs, natPairs, strPairs [][]expr
+	for i := 0; i <= 2; i++ {
+		for j := 0; j <= 3; j++ {
+			ackArgs = append(ackArgs, []expr{lit(i), lit(j)})
+		}
+	}
+	for i := 0; i <= 3; i++ {
+		for _, j := range []int{0, 5} {
+			natPairs = append(natPairs, []expr{lit(i), lit(j)})
+		}
+		strPairs = append(strPairs, []expr{lit(i), lit("s")})
+	}
+	ts := []tmpl{
+		{"ackermann", []stmt{sFunc{"ack", []param{{"m", ""}, {"n", ""}}, "", []stmt{
+			sIf{conds: []expr{bin("==", m, lit(0)), bin("==", n, lit(0))},
+				blocks: [][]stmt{{ret(bin("+", n, lit(1)))}, {ret(call("ack", sub1(m), lit(1)))}},
+				els:    []stmt{ret(call("ack", sub1(m), call("ack", m, sub1(n))))}, hasEls: true}}}},
+			prF("ack"), ackArgs},
+		{"ackermann-typed", []stmt{sFunc{"ack", []param{{"m", "int"}, {"n", "int"}}, "int", []stmt{
+			sIf{conds: []expr{bin("==", m, lit(0)), bin("==", n, lit(0))},
+				blocks: [][]stmt{{ret(bin("+", n, lit(1)))}, {ret(call("ack", sub1(m), lit(1)))}},
+				els:    []stmt{ret(call("ack", sub1(m), call("ack", m, sub1(n))))}, hasEls: true}}}},
+			prF("ack"), ackArgs},
+		// second argument is a recursive call of the function itself with the same callsite re-entered inside
+		{"self-in-second-arg", []stmt{sFunc{"f", []param{{"n", ""}, {"acc", ""}}, "", []stmt{
+			ifz(le0(n), ret(acc)),
+			ret(call("f", sub1(n), call("f", sub1(n), bin("+", acc, n))))}}},
+			prF("f"), natPairs},
+		{"self-in-second-arg-weighted", []stmt{sFunc{"f", []param{{"n", ""}, {"acc", ""}}, "", []stmt{
+			ifz(le0(n), ret(acc)),
+			ret(bin("+", bin("*", n, lit(1000)), call("f", sub1(n), call("f", bin("-", n, lit(2)), bin("+", bin("*", acc, lit(3)), n)))))}}},
+			prF("f"), natPairs},
+		{"self-in-second-arg-strings", []stmt{sFunc{"f", []param{{"n", ""}, {"s", ""}}, "", []stmt{
+			ifz(le0(n), ret(sv)),
+			ret(dot(call("f", sub1(n), call("f", sub1(n), dot(sv, lit("<"), n))), lit(">"), n))}}},
+			prF("f"), strPairs},
+		{"self-in-first-arg", []stmt{sFunc{"f", []param{{"acc", ""}, {"n", ""}}, "", []stmt{
+			ifz(le0(n), ret(acc)),
+			ret(call("f", call("f", bin("+", acc, n), sub1(n)), sub1(n)))}}},
+			func(args []expr) []stmt { return prF("f")([]expr{args[1], args[0]}) }, natPairs},
+		{"three-args", []stmt{sFunc{"t", []param{{"n", ""}, {"b", ""}, {"c", ""}}, "", []stmt{
+			ifz(le0(n), ret(dot(loc("b"), lit("|"), loc("c")))),
+			ret(call("t", sub1(n), call("t", sub1(n), dot(loc("b"), n), loc("c")), call("t", sub1(n), loc("c"), dot(loc("b"), lit("x")))))}}},
+			func(args []expr) []stmt { return prF("t")([]expr{args[0], lit("B"), lit("C")}) }, strPairs[:3]},
+		// mutual recursion with two arguments: h's second argument calls g, g's second argument calls g
+		{"mutual-g-h", []stmt{
+			sFunc{"g", []param{{"n", ""}, {"acc", ""}}, "", []stmt{
+				ifz(le0(n), ret(bin("+", acc, lit(10)))),
+				ret(call("h", sub1(n), call("g", sub1(n), bin("+", acc, n))))}},
+			sFunc{"h", []param{{"n", ""}, {"acc", ""}}, "", []stmt{
+				ifz(le0(n), ret(acc)),
+				ret(call("g", n, bin("+", call("g", sub1(n), acc), lit(1))))}}},
+			prF("g"), natPairs},
+		// string-building two-function recursion
+		{"mutual-strings-p-q", []stmt{
+			sFunc{"p", []param{{"n", ""}, {"s", ""}}, "", []stmt{
+				ifz(le0(n), ret(sv)),
+				ret(call("q", sub1(n), call("p", sub1(n), dot(sv, lit("p"), n))))}},
+			sFunc{"q", []param{{"n", ""}, {"s", ""}}, "", []stmt{
+				ifz(le0(n), ret(dot(sv, lit("!")))),
+				ret(call("p", sub1(n), call("q", sub1(n), dot(sv, lit("q"), n))))}}},
+			prF("p"), strPairs},
+		// the same through a subroutine with an oosvar accumulator: the argument of `call s` runs a
+		// function that calls s, whose body reaches the same `call s` callsite again
+		{"subroutine-oosvar", []stmt{
+			sSubr{"s", []param{{"n", ""}, {"v", ""}}, []stmt{
+				sIf{conds: []expr{le0(n)}, blocks: [][]stmt{{opasg(oos("acc"), ".", dot(loc("v"), lit(";")))}},
+					els: []stmt{sCall{"s", []expr{sub1(n), call("w", n, loc("v"))}}, opasg(oos("acc"), ".", dot(lit("["), n, loc("v"), lit("]")))}, hasEls: true}}},
+			sFunc{"w", []param{{"n", ""}, {"v", ""}}, "", []stmt{
+				sCall{"s", []expr{sub1(n), dot(loc("v"), lit("w"))}},
+				ret(dot(loc("v"), n))}}},
+			func(args []expr) []stmt {
+				return []stmt{asg(loc("n"), lit(100)), asg(oos("acc"), lit("^")), sCall{"s", args}, pr(lit("acc"), oos("acc")), pr(lit("caller"), loc("n"))}
+			}, strPairs},
+	}
+	for ti, t := range ts {
+		for _, args := range t.args {
+			for _, inEnd := range []bool{true, false} {
+				t, args, ti, inEnd := t, args, ti, inEnd
+				emit(func() *progCase {
+					body := t.body(args)
+					if inEnd {
+						return &progCase{family: "recur", size: 100 + ti, top: append(append([]stmt{}, t.defs...), sEnd{body}), noInput: true}
+					}
+					return &progCase{family: "recur", size: 100 + ti, top: append(append([]stmt{}, body...), t.defs...), opts: runOpts{q: true}}
 				})
 			}
 		}
